@@ -13,7 +13,7 @@ import (
 func menuNoReplay(w *worlds.World) []int {
 	var m []int
 	for i := range w.Menu {
-		if w.Menu[i].Replay == 0 {
+		if w.Menu[i].Replay == 0 && !w.Menu[i].StealSig {
 			m = append(m, i)
 		}
 	}
